@@ -8,6 +8,8 @@ evidence file.
   * a variant expected to be caught and reported by the analysis        -> ok
   * a variant whose patch no longer applies to the current tree          -> skipped (tree drifted)
   * a variant recorded as an honest miss (expect = "miss")               -> listed, never an error
+  * a behaviour-preserving variant (expect = "silent") the analysis stays quiet on -> ok; reporting it
+    would be a false alarm of the checker                                   -> ANALYSIS-ERROR, exit 2
   * a variant expected to be caught that the analysis does not report    -> ANALYSIS-ERROR, exit 2
     (the checker lost the ability it was confirmed to have; not a statement about the property)
 """
@@ -32,7 +34,7 @@ def variants_for(pid):
             idx = json.load(f)
         for v in idx['variants']:
             exp = v.get('expect', {}).get(pid)
-            if exp in ('caught', 'miss'):
+            if exp in ('caught', 'miss', 'silent'):
                 out.append((v['name'], os.path.join(VERIF, v['patch']), exp, v.get('what', '')))
     return out
 
@@ -75,10 +77,12 @@ def run(pid):
             res = list(ex.map(lambda v: _one(pid, v[0], v[1], v[2], v[3], base), vs))
     finally:
         shutil.rmtree(base, ignore_errors=True)
-    bad = [r for r in res if r['expect'] == 'caught' and r['outcome'] in ('not reported', 'analysis-error')]
+    bad = [r for r in res if (r['expect'] == 'caught' and r['outcome'] in ('not reported', 'analysis-error')) or
+           (r['expect'] == 'silent' and r['outcome'] in ('caught', 'analysis-error'))]
     summary = {
         'variants': len(res),
         'caught': sum(1 for r in res if r['outcome'] == 'caught'),
+        'silent_ok': sum(1 for r in res if r['expect'] == 'silent' and r['outcome'] == 'not reported'),
         'skipped_patch_does_not_apply': sum(1 for r in res if r['outcome'] == 'skipped'),
         'recorded_misses': [r['variant'] for r in res if r['expect'] == 'miss'],
         'unexpected': [r['variant'] for r in bad],
@@ -101,6 +105,6 @@ def run(pid):
     print('selftest %s: %d variants, %d caught, %d skipped (patch does not apply), %d recorded misses'
           % (pid, summary['variants'], summary['caught'], summary['skipped_patch_does_not_apply'], len(summary['recorded_misses'])))
     for r in bad:
-        print('ANALYSIS-ERROR property=%s self-test: variant %s (%s) is expected to be reported but the analysis says %s %s'
-              % (pid, r['variant'], r.get('what', '')[:120], r['outcome'], r.get('detail', '')[-200:]))
+        print('ANALYSIS-ERROR property=%s self-test: variant %s (%s) is expected to be %s but the analysis says %s %s'
+              % (pid, r['variant'], r.get('what', '')[:120], 'reported' if r['expect'] == 'caught' else 'left alone', r['outcome'], r.get('detail', '')[-200:]))
     return 2 if bad else 0
